@@ -220,3 +220,107 @@ Section LiftGcv.
     destruct (fltb OpsR (gcv_score OpsR de s wt y (ws2d OpsR y s wt)) sc0); apply IH; intros; apply Hp; right; assumption.
   Qed.
 End LiftGcv.
+
+(** ** the offset law for the whole non-robust GCV smoother: y + c with placeholder nodata + c gives the same lambda and the
+    curve moved by c.  Missing cells are zeroed by the kernel (not shifted), but they carry weight 0: neither the solver
+    (it sees only w * y) nor the score (it sees sqrt w * (y - z)) notices. *)
+From HDC Require Import Proofs.SmoothersProofs Proofs.VCurveProofs Proofs.GcvProofs Proofs.PlaceholderProofs.
+
+Fixpoint agree (w a b : list R) : Prop :=
+  match w, a, b with
+  | [], [], [] => True
+  | wi :: w', ai :: a', bi :: b' => (wi = 0 \/ ai = bi) /\ agree w' a' b'
+  | _, _, _ => False
+  end.
+
+Lemma agree_lengths w : forall a b, agree w a b -> length a = length w /\ length b = length w.
+Proof. induction w as [|x w IH]; intros [|a a'] [|b b'] H; cbn in H; try contradiction; [split; reflexivity|]. destruct H as [_ H]. destruct (IH _ _ H). cbn. split; congruence. Qed.
+
+Lemma agree_products w : forall a b, agree w a b ->
+  map (fun t => fmul OpsR (fst t) (snd t)) (combine w a) = map (fun t => fmul OpsR (fst t) (snd t)) (combine w b).
+Proof.
+  induction w as [|x w IH]; intros [|a a'] [|b b'] H; cbn in H; try contradiction; [reflexivity|]. destruct H as [H0 H].
+  cbn [combine map]. rewrite (IH _ _ H). f_equal. cbn [fst snd fmul OpsR]. destruct H0 as [-> | ->]; ring.
+Qed.
+
+Lemma gcv_score_agree de s wt : forall y1 y2 z, agree wt y1 y2 -> gcv_score OpsR de s wt y1 z = gcv_score OpsR de s wt y2 z.
+Proof.
+  intros y1 y2 z H. unfold gcv_score. f_equal. f_equal. revert y1 y2 z H.
+  induction wt as [|x w IH]; intros [|a a'] [|b b'] z H; cbn in H; try contradiction; [reflexivity|]. destruct H as [H0 H].
+  destruct z as [|c z']; [reflexivity|]. cbn [combine map]. rewrite (IH _ _ z' H). f_equal.
+  destruct H0 as [-> | ->]; [|reflexivity]. cbn [fsqrt fmul fsub sq OpsR]. rewrite sqrt_0. unfold sq. cbn [fmul OpsR]. ring.
+Qed.
+
+Lemma gcv_scan_agree de wt y1 y2 lams : agree wt y1 y2 -> forall best,
+  gcv_scan OpsR de wt y1 lams best = gcv_scan OpsR de wt y2 lams best.
+Proof.
+  intros H. destruct (agree_lengths _ _ _ H) as [L1 L2].
+  induction lams as [|s r IH]; intros best; cbn [gcv_scan]; [reflexivity|].
+  rewrite (ws2d_wy_indep OpsR y1 y2 s wt L1 L2 (agree_products _ _ _ H)). rewrite (gcv_score_agree de s wt y1 y2 _ H).
+  destruct (fltb OpsR _ (fst (fst best))); apply IH.
+Qed.
+
+Lemma gcv_scan_z0_indep de wt y lams : forall sc0 s0 z0 z0',
+  fst (gcv_scan OpsR de wt y lams (sc0, s0, z0)) = fst (gcv_scan OpsR de wt y lams (sc0, s0, z0')).
+Proof.
+  induction lams as [|s r IH]; intros sc0 s0 z0 z0'; cbn [gcv_scan]; [reflexivity|]. cbn [fst].
+  destruct (fltb OpsR _ sc0); [reflexivity|apply IH].
+Qed.
+
+Lemma zero_missing_shift_agree c (w : list R) : forall y, is01 w -> length w = length y ->
+  agree w (zero_missing OpsR w (shiftl c y)) (shiftl c (zero_missing OpsR w y)).
+Proof.
+  induction w as [|x w IH]; intros [|b y] H01 Hl; cbn [length] in Hl; try lia; [exact I|].
+  inversion H01 as [|? ? Hx Hr]; subst. cbn [zero_missing shiftl map combine fst snd agree]. split; [|apply IH; [exact Hr|lia]].
+  destruct Hx as [-> | ->]; [left; reflexivity|right]. cbn [feqb f0 OpsR]. rewrite (Reqb_neq 1 0) by lra. reflexivity.
+Qed.
+
+Lemma weights_gu_shift c nd (y : list R) : weights_gu OpsR (nd + c) (shiftl c y) = weights_gu OpsR nd y.
+Proof.
+  unfold weights_gu, shiftl. rewrite map_map. apply map_ext. intros v. unfold missing_gu. cbn [feqb fnonfinite OpsR].
+  destruct (Req_EM_T v nd) as [->|Hne].
+  - rewrite !Reqb_refl. reflexivity.
+  - rewrite (Reqb_neq v nd Hne). rewrite (Reqb_neq (v + c) (nd + c)) by lra. reflexivity.
+Qed.
+
+Theorem wcv_nonrobust_shift (K : gconsts (F := R)) (y : list R) nd c llas z lopt :
+  ws2dwcv OpsR K y nd llas false = GFit z lopt -> 0 < lopt ->
+  ws2dwcv OpsR K (shiftl c y) (nd + c) llas false = GFit (shiftl c z) lopt.
+Proof.
+  intros H Hlopt. unfold ws2dwcv in *.
+  destruct (fltb OpsR (fofZ OpsR 4) (fsum OpsR (weights_gu OpsR nd y))) eqn:E; [|unfold wcv_core in H; rewrite E in H; discriminate].
+  assert (length (shiftl c y) = length y) as Ly by apply map_length.
+  assert (fltb OpsR (fofZ OpsR 4) (fsum OpsR (weights_gu OpsR (nd + c) (shiftl c y))) = true) as E' by (rewrite weights_gu_shift; exact E).
+  rewrite (wcv_nonrobust_unfold OpsR K y nd llas E) in H. rewrite (wcv_nonrobust_unfold OpsR K (shiftl c y) (nd + c) llas E').
+  rewrite weights_gu_shift, Ly. set (w := weights_gu OpsR nd y) in *.
+  assert (length w = length y) as Lw by (unfold w, weights_gu; apply map_length).
+  rewrite (map2_mul_ones w (length y) Lw) in *.
+  set (yv := zero_missing OpsR w y) in *. set (yv' := zero_missing OpsR w (shiftl c y)).
+  set (de := d_eigs OpsR K (length y)) in *. set (grid := map (fpow10 OpsR) llas) in *.
+  assert (is01 w) as H01 by apply weights_gu_01.
+  assert (agree w yv' (shiftl c yv)) as Ag by (apply zero_missing_shift_agree; assumption).
+  assert (length yv = length y) as Lyv by (unfold yv, zero_missing; rewrite map_length, combine_length; lia).
+  (* contract of the weights *)
+  cbn [fltb fofZ OpsR] in E. apply Rltb_true in E. rewrite fsum_rsum in E. fold w in E.
+  assert (4 <= length y)%nat as Hn.
+  { assert (rsum w <= INR (length w)) as B.
+    { clear -H01. induction w as [|x r IH]; cbn [rsum length]; [cbn [INR]; lra|]. inversion H01 as [|? ? Hx Hr]; subst. specialize (IH Hr).
+      rewrite S_INR. destruct Hx as [-> | ->]; lra. }
+    rewrite Lw in B. assert (4 < INR (length y)) as B' by lra. apply INR_le. replace (INR 4) with 4 by (cbn; ring). lra. }
+  destruct (contract_of_01 yv w 1 ltac:(rewrite Lyv; exact Lw) ltac:(rewrite Lyv; exact Hn) ltac:(lra) H01 ltac:(lra)) as [Wn W2].
+  rewrite Lyv in Wn, W2.
+  assert (forall s, In s grid -> 0 < s) as Gp by (intros s Hs; unfold grid in Hs; apply in_map_iff in Hs as (l & <- & _); cbn; apply exp_pos).
+  (* the scan on the shifted data *)
+  rewrite (gcv_scan_agree de w yv' (shiftl c yv) grid Ag).
+  set (b0 := (c_1e15 K, f0 OpsR, zeros OpsR (length y))) in *.
+  assert (fst (gcv_scan OpsR de w (shiftl c yv) grid b0) = fst (gcv_scan OpsR de w yv grid b0)) as Es.
+  { unfold b0. rewrite (gcv_scan_z0_indep de w (shiftl c yv) grid (c_1e15 K) (f0 OpsR) (zeros OpsR (length y)) (shiftl c (shiftl (- c) (zeros OpsR (length y))))).
+    rewrite (gcv_scan_shift yv w c ltac:(rewrite Lyv; exact Lw) ltac:(rewrite Lyv; exact Hn) ltac:(rewrite Lyv; exact Wn) ltac:(rewrite Lyv; exact W2) de grid Gp).
+    rewrite (gcv_scan_z0_indep de w yv grid (c_1e15 K) (f0 OpsR) (zeros OpsR (length y)) (shiftl (- c) (zeros OpsR (length y)))).
+    destruct (gcv_scan OpsR de w yv grid (c_1e15 K, f0 OpsR, shiftl (- c) (zeros OpsR (length y)))) as [[sc s] zz]. reflexivity. }
+  injection H as Hz Hl. rewrite Es, Hl. rewrite Hl in Hz. f_equal.
+  destruct (agree_lengths _ _ _ Ag) as [La Lb].
+  rewrite (ws2d_wy_indep OpsR yv' (shiftl c yv) lopt w La Lb (agree_products _ _ _ Ag)).
+  rewrite (ws2d_shift_list yv w c ltac:(rewrite Lyv; exact Lw) ltac:(rewrite Lyv; exact Hn) ltac:(rewrite Lyv; exact Wn) ltac:(rewrite Lyv; exact W2) lopt Hlopt).
+  rewrite Hz. reflexivity.
+Qed.
